@@ -179,6 +179,12 @@ class Env:
             return False
         return abs(a - b) <= self.tol(a, b)
 
+    def nonzero(self, x):
+        """x != 0, exact in both modes (for preconditions such as 'the data is not the zero tensor': tiny values are not zero)"""
+        if self.symbolic:
+            return self.Not(SR.lift(x) == 0) if isinstance(x, (SR, SB)) else (x != 0)
+        return float(x) != 0.0
+
     def ge(self, a, b):
         if self.symbolic:
             return SR.lift(a) >= b
@@ -237,10 +243,13 @@ class Env:
             ivars = list(sym.CTX.vars.values())
             if ivars:
                 ks = [z3.Int(f"__b{i}") for i in range(len(ivars))]
-                box = [v == z3.ToReal(k) for v, k in zip(ivars, ks)] + [z3.And(k >= -2, k <= 2) for k in ks]
-                r, m = self._decide(phi, groups, extra=box, timeout_ms=8000)
-                if r == "sat":
-                    verdict, model = "sat", m
+                # unit box, then a tiny-magnitude box (k * 2^-60): thresholds against machine epsilon only bite there
+                for unit in (z3.RealVal(1), z3.RealVal(1) / z3.RealVal(2**60)):
+                    box = [v == z3.ToReal(k) * unit for v, k in zip(ivars, ks)] + [z3.And(k >= -2, k <= 2) for k in ks]
+                    r, m = self._decide(phi, groups, extra=box, timeout_ms=8000)
+                    if r == "sat":
+                        verdict, model = "sat", m
+                        break
         if verdict == "unknown" and hints:
             # witness search: a hint is a sufficient condition for NOT phi that is easier to satisfy (e.g. exact cancellation)
             ivars = list(sym.CTX.vars.values())
@@ -362,19 +371,24 @@ class Env:
             exact[name] = ex
         return vals, exact
 
-    def _generic_inputs(self):
+    def _generic_inputs(self, kind="generic"):
+        """generic replay inputs; the 'tiny' kinds scale the first declared input (usually the data) or every input by 2^-60,
+        the region where thresholds against machine epsilon bite"""
         import random
 
         rnd = random.Random(4242)
         vals = {}
-        for name, a in self.decl.items():
+        for pos_, (name, a) in enumerate(self.decl.items()):
+            scale = 1.0
+            if kind == "generic-tiny-all" or (kind == "generic-tiny-data" and pos_ == 0):
+                scale = 2.0**-60
             arr = np.asarray(a, dtype=object)
             out = []
             for e in arr.ravel():
                 v = rnd.choice([0.5, 1.0, 1.5, 2.0, 2.5, 3.0, 0.75, 1.25])
                 if not e.nn and rnd.random() < 0.4:
                     v = -v
-                out.append(v)
+                out.append(v * scale)
             vals[name] = np.array(out, dtype=np.float64).reshape(arr.shape).tolist()
         return vals
 
@@ -403,28 +417,34 @@ class Env:
                     break
         # nice (float-exact) model: integers in a small box, then quarter-integers
         ivars = self._input_vars()
+        generic = ["generic", "generic-tiny-data", "generic-tiny-all"]
         candidates = []
+        if info.get("refine"):
+            # the refinement was undecided, so the model at hand may be an artefact of the root abstraction: try the cheap generic
+            # inputs first (any input on which the real run fails the obligation is a genuine counterexample)
+            candidates += generic
         for scale, bound in ((1, 3), (4, 12)):
-            if not ivars:
+            if not ivars or (sym.CTX.deadline and time.time() > sym.CTX.deadline - 20):
                 break
             ks = [z3.Int(f"__k{i}") for i in range(len(ivars))]
             box = [v * scale == z3.ToReal(k) for v, k in zip(ivars, ks)] + [z3.And(k >= -bound, k <= bound) for k in ks]
-            r, m3 = self._decide(phi, groups, extra=list(extra) + box, timeout_ms=5000)
+            try:
+                r, m3 = self._decide(phi, groups, extra=list(extra) + box, timeout_ms=5000)
+            except sym.BudgetExceeded:
+                break
             if r == "sat":
                 candidates.append(m3)
                 break
         candidates.append(model)
-        candidates = candidates[:2]
-        # a third, generic candidate: the obligation may fail for (almost) every input while the solver's model is degenerate for the
-        # real kernels (singular systems, ties); any input on which the real run fails the obligation is a genuine counterexample
-        candidates.append("generic")
+        if not info.get("refine"):
+            candidates += generic
         for m in candidates:
-            if self._nreplays >= 4 * self.max_replays:
+            if self._nreplays >= 6 * self.max_replays:
                 info["note"] = "replay budget exhausted"
                 return "inconclusive", info
             self._nreplays += 1
             if isinstance(m, str):
-                vals, exact = self._generic_inputs(), None
+                vals, exact = self._generic_inputs(m), None
             else:
                 vals, exact = self._model_inputs(m)
             path = write_replay(self.pid, self.cfg_key, name, vals, exact)
